@@ -147,6 +147,9 @@ func main() {
 		re := regexp.MustCompile(*dump)
 		for _, p := range P.pkgs {
 			sp := P.prog.Package(p.Types)
+			if sp == nil {
+				continue
+			}
 			for _, f := range P.pkgFunctions(sp) {
 				if re.MatchString(f.String()) {
 					f.WriteTo(os.Stdout)
@@ -283,6 +286,8 @@ func main() {
 	}
 	nObl, nDis := 0, 0
 	bySolver := map[string]int{}
+	nBoundedOK := 0
+	boundedNotes := map[string]bool{}
 	var totalMs int64
 	var samples []map[string]interface{}
 	violations := 0
@@ -312,7 +317,16 @@ func main() {
 			}
 			continue
 		}
-		nObl++
+		if o.Bounded != "" {
+			entry["bounded"] = o.Bounded
+			if o.Status == "proved" {
+				nBoundedOK++
+				boundedNotes[o.Fn+": "+o.Bounded] = true
+				continue
+			}
+		} else {
+			nObl++
+		}
 		if o.Status == "proved" {
 			nDis++
 			bySolver[o.Solver]++
@@ -394,7 +408,8 @@ func main() {
 		"known_findings_hit":       knownHits,
 		"not_covered":              cfg.NotCovered,
 		"functions_excluded_from_sweep": excluded,
-		"bounded":                  cfg.Bounded,
+		"bounded":                  boundedList(cfg.Bounded, boundedNotes),
+		"bounded_obligations_passed_not_counted_as_proved": nBoundedOK,
 		"explanation":              cfg.Explanation,
 		"obligation_list":          oblList,
 		"exhaustive":               false,
@@ -418,6 +433,16 @@ func main() {
 	if !*keep {
 		os.RemoveAll(work)
 	}
+}
+
+func boundedList(cfg []string, notes map[string]bool) []string {
+	out := append([]string{}, cfg...)
+	var ns []string
+	for n := range notes {
+		ns = append(ns, n)
+	}
+	sort.Strings(ns)
+	return append(out, ns...)
 }
 
 func hasProp(ps []string, p string) bool {
